@@ -160,6 +160,18 @@ def main():
     t["events"][0]["out2"][0].reverse()
     demos.append(("X08 wrapper noise on the mirrored gate", "Trace_McAssign", t, {"SupportOK"}))
 
+    # --- metric log (X09): a value logged although it is not a log_steps-th evaluation; a composite value off by one
+    from drivers import x09
+    r9 = random.Random(11)
+    base = next(t for t in (x09.history(1, r9, True) for _ in range(50)) if t["log_steps"] >= 2 and len(t["events"]) >= 3)
+    assert verdict("Trace_MetricLog", base) == []
+    t = copy.deepcopy(base)
+    t["events"][0]["log"] = [t["events"][0]["v"]]
+    demos.append(("X09 value logged out of turn", "Trace_MetricLog", t, {"LogOK"}))
+    t = copy.deepcopy(base)
+    t["events"][1]["v"] += 1
+    demos.append(("X09 composite value is not the weighted sum", "Trace_MetricLog", t, {"ValueOK"}))
+
     # --- update_hof replay (C19): a worse circuit ranked above a better one
     class _Ctx:
         rng = random.Random(5)
